@@ -24,6 +24,21 @@ EXPLANATION = (
     "mean, and the filter/sink race at end of stream, are not decided.")
 
 
+def as_update(lv, op, rhs):
+    """(operator, other operand) if the store is an update of its own target:
+    x op= y,  or  x = x op y / x = y op x (commutative ops)"""
+    if op in ("+=", "*=", "-=", "/="):
+        return op, rhs
+    r0 = ir.strip(rhs) if isinstance(rhs, dict) else None
+    if op == "=" and isinstance(r0, dict) and r0.get("k") == "bin" and r0.get("op") in ("+", "*", "-", "/"):
+        a, b = ir.strip(r0["l"]), ir.strip(r0["r"])
+        if ir.render(a) == ir.render(ir.strip(lv)):
+            return r0["op"] + "=", b
+        if r0["op"] in ("+", "*") and ir.render(b) == ir.render(ir.strip(lv)):
+            return r0["op"] + "=", a
+    return None
+
+
 def reads_payload(prog, g, pidx):
     """Does g read-modify (or read) the payload of its VideoFrame* parameter
     pidx?  True if a pointer derived from param->data is used as the target of
@@ -40,7 +55,7 @@ def reads_payload(prog, g, pidx):
                             derived.add(lv["id"])
     for b, i, s in g.all_stmts():
         for x in ir.walk(s):
-            if x.get("k") == "asg" and x["op"] not in ("=",):
+            if x.get("k") == "asg" and as_update(x["l"], x["op"], x.get("r")) is not None:
                 root, ch = ir.field_chain(x["l"])
                 base = x["l"]
                 while isinstance(base, dict) and base.get("k") in ("idx", "deref"):
@@ -386,9 +401,10 @@ def _kernel_loop(prog, f, head, body, op_want, is_acc):
         for t in f.blocks[b].succ_ids():
             if t not in body:
                 problems.append("the body can leave the loop before the last pixel")
-    if len(stores) != 1 or stores[0][1] != op_want:
+    upd = as_update(*stores[0]) if len(stores) == 1 else None
+    if upd is None or upd[0] != op_want:
         return problems + ["the body is not a single element update with %s" % op_want]
-    lv, op, rhs = stores[0]
+    lv, op, rhs = stores[0][0], upd[0], upd[1]
     l0 = ir.strip(lv)
     npx_of = lambda an, s_: an.read(s_, "acc->shape.strides.planes")
     if l0.get("k") == "idx":
